@@ -52,10 +52,10 @@ impl ProofOfSignatureKnowledge for PokSignatureProof {
         let mut msgs = Vec::with_capacity(revealed_messages.len());
         let mut known = BTreeSet::new();
         for (idx, msg) in revealed_messages {
-            if *idx >= public_key.y.len() {
-                continue;
+            // an index outside the key or listed twice does not describe a message vector
+            if *idx >= public_key.y.len() || !known.insert(*idx) {
+                return Err(Error::General("Invalid proof - revealed message index"));
             }
-            known.insert(*idx);
             points.push(public_key.y[*idx]);
             msgs.push(*msg);
         }
